@@ -213,9 +213,12 @@ class AssociationAcceptor(socketserver.StreamRequestHandler, Association):
         acceptable_pr_contexts"""
         user_items = assoc_req.variable_items[-1]
         max_pdu_sub_item = _max_length_sub_item(user_items.user_data)
-        if self.max_pdu_length > max_pdu_sub_item.maximum_length_received:
-            self.max_pdu_length = max_pdu_sub_item.maximum_length_received
+        # announce own limit, send no more than remote AE is ready to receive (0 means no limit)
+        peer_max_pdu_length = max_pdu_sub_item.maximum_length_received
         max_pdu_sub_item.maximum_length_received = self.max_pdu_length
+        if peer_max_pdu_length and (not self.max_pdu_length or
+                                    self.max_pdu_length > peer_max_pdu_length):
+            self.max_pdu_length = peer_max_pdu_length
 
         # analyse proposed presentation contexts
         rsp = [assoc_req.variable_items[0]]
@@ -404,7 +407,8 @@ class AssociationRequester(Association):
         max_pdu_sub_item = _max_length_sub_item(user_data)
         if max_pdu_sub_item is not None:
             max_pdu_length = max_pdu_sub_item.maximum_length_received
-            if max_pdu_length and self.max_pdu_length > max_pdu_length:
+            if max_pdu_length and (not self.max_pdu_length or
+                                   self.max_pdu_length > max_pdu_length):
                 self.max_pdu_length = max_pdu_length
 
         # Get accepted presentation contexts
